@@ -550,3 +550,45 @@ def crop_shape_rule(tree: ast.Module) -> list[tuple[str, str]]:
                 raise Untranslatable("crop_shape chain: else neither assigns nor nests")
     walk(top, "")
     return rows
+
+
+# --------------------------------------------------------------------------------------------------
+def inplace_on_inputs(fn: ast.FunctionDef, skip_params: tuple[str, ...] = ("self",)) -> list[tuple[str, str]]:
+    """(function, what) for every operation that could modify an argument in place: torch-style `x.op_()` calls on
+    anything, `out=` keywords, augmented assignments and item assignments whose base is a parameter (or a plain alias
+    of one, `y = x`)."""
+    params = {a.arg for a in fn.args.posonlyargs + fn.args.args + fn.args.kwonlyargs} - set(skip_params)
+    alias = set(params)
+    for n in ast.walk(fn):          # one round of plain aliases / views: y = x, y = x[...], y = x.view(...)
+        if isinstance(n, ast.Assign) and len(n.targets) == 1 and isinstance(n.targets[0], ast.Name):
+            v = n.value
+            base = v
+            while isinstance(base, (ast.Subscript, ast.Attribute)):
+                base = base.value
+            if isinstance(v, (ast.Name, ast.Subscript)) and isinstance(base, ast.Name) and base.id in params:
+                alias.add(n.targets[0].id)
+    rows = []
+    for n in ast.walk(fn):
+        if isinstance(n, ast.Call):
+            f = n.func
+            if isinstance(f, ast.Attribute) and f.attr.endswith("_") and not f.attr.startswith("_"):
+                rows.append((fn.name, f"call .{f.attr}()"))
+            if any(k.arg == "out" for k in n.keywords):
+                rows.append((fn.name, f"out= in {ast.unparse(f)}"))
+        if isinstance(n, ast.AugAssign):
+            base = n.target
+            while isinstance(base, (ast.Subscript, ast.Attribute)):
+                base = base.value
+            if isinstance(base, ast.Name) and base.id in alias and not isinstance(n.target, ast.Name):
+                rows.append((fn.name, f"augmented assignment to {ast.unparse(n.target)}"))
+            if isinstance(n.target, ast.Name) and n.target.id in alias:
+                rows.append((fn.name, f"augmented assignment to parameter {n.target.id}"))
+        if isinstance(n, (ast.Assign, ast.Delete)):
+            for t in _targets(n):
+                if isinstance(t, ast.Subscript):
+                    base = t.value
+                    while isinstance(base, (ast.Subscript, ast.Attribute)):
+                        base = base.value
+                    if isinstance(base, ast.Name) and base.id in alias:
+                        rows.append((fn.name, f"item assignment to {ast.unparse(t.value)}"))
+    return sorted(set(rows))
